@@ -46,14 +46,20 @@ try:
         json.dump(meta, open(os.path.join(dst, 'meta.json'), 'w'), indent=1)
         sys.exit(3)
     envc = dict(os.environ, VERIF_REPO=SWT)
+    # the checks run in a private copy of /verif (the generated files under coq/gen are rewritten from the tree a
+    # check is pointed at, so two checks on different trees must not share one coq/ directory)
+    LANE = '/tmp/verif_lane_%d' % os.getpid()
+    subprocess.run(['rsync', '-a', '--delete', '--exclude', '.git', '--exclude', '_work', '--exclude', 'replays', '--exclude', 'seeded',
+                    '/verif/', LANE + '/'], check=True)
     for p in [prop] + extra:
         t0 = time.time()
-        rc, out = sh(['./check', p], cwd='/verif', env=envc, timeout=3000)
+        rc, out = sh(['./check', p], cwd=LANE, env=envc, timeout=3000)
         viol = [l for l in out.splitlines() if l.startswith('VIOLATION') or 'obligation FAILED' in l]
         results[p] = {'exit': rc, 'caught': rc != 0, 'lines': [v[:300] for v in viol][:6], 'wall_s': round(time.time() - t0)}
         print(p, 'exit', rc, [v[:160] for v in viol][:4])
 finally:
     subprocess.run(['git', '-C', '/repo', 'worktree', 'remove', '--force', SWT])
+    shutil.rmtree('/tmp/verif_lane_%d' % os.getpid(), ignore_errors=True)
 meta['checks'] = results
 meta['what_it_needs'] = open(os.path.join(dst, 'notes.txt')).read()[:1500] if os.path.exists(os.path.join(dst, 'notes.txt')) else ''
 meta['ran'] = f'tools/seeded.py {prop} {wt} {k} {" ".join(extra)}'
